@@ -16,7 +16,7 @@ from fractions import Fraction
 
 from hypothesis import strategies as st
 
-from vf.common import call_sut, run_given, shard_seed
+from vf.common import CaseTimeout, call_sut, run_given, shard_seed, watchdog
 
 ID = "C19"
 LEVEL = "exploration"
@@ -199,6 +199,7 @@ def enum_totals(col, totals, render_upto):
     distinct percentage triple (rendering is re-checked whenever the API output has not been rendered yet)."""
     seen_triples = set()
     report = _report()
+    hangs = 0
     for T in totals:
         n = 0
         nt = 0
@@ -215,18 +216,29 @@ def enum_totals(col, totals, render_upto):
                     if not render:
                         report.quality_profile = lambda p=prof: list(p)
                         try:
-                            pct = report.quality_profile_percentage()
+                            with watchdog(30):
+                                pct = report.quality_profile_percentage()
                             key = (pct[0] + pct[1], pct[2], pct[3])
                         except Exception:
                             key = None
                         if key not in seen_triples:
                             seen_triples.add(key)
                             render = True
-                    res = check_profile(prof, render)
+                    try:
+                        with watchdog(30):
+                            res = check_profile(prof, render)
+                    except CaseTimeout:
+                        res = ("hang", f"profile {prof}: no result within 30 s")
                     if render:
                         col.label("rendered")
                     if res is not None:
                         col.fail({"profile": list(prof), "render": True}, res[0], res[1])
+                        if res[0] == "hang":
+                            hangs += 1
+                            if hangs >= 3:
+                                col.inconclusive.append(f"enumeration of totals {totals} stopped after 3 hanging profiles (each is reported)")
+                                col.bulk(n, nt)
+                                return
                     elif nz >= 2 and n % 50021 == 1:
                         col.sample({"profile": list(prof)}, force=len(col.samples) < 4)
         col.bulk(n, nt)
